@@ -41,14 +41,16 @@ func (f famT) family() chainx.Family {
 
 // trieT is the state trie of the source at one height, as a DAG of hashes.
 type trieT struct {
-	Root       util.Uint256
-	Nodes      map[util.Uint256][]byte         // serialized nodes as a peer sends them
-	Kids       map[util.Uint256][]util.Uint256 // distinct children
-	Pre        map[util.Uint256]int            // first position in the pre-order traversal
-	List       []util.Uint256                  // pre-order, distinct
-	Sub        map[util.Uint256][]util.Uint256 // pre-order of the subtree (what a peer answers to a request of the hash)
-	Multi      int                             // hashes reachable along more than one path
-	MultiInner int                             // ... of them branch/extension nodes
+	Root        util.Uint256
+	Nodes       map[util.Uint256][]byte         // serialized nodes as a peer sends them
+	Kids        map[util.Uint256][]util.Uint256 // distinct children
+	Pre         map[util.Uint256]int            // first position in the pre-order traversal
+	List        []util.Uint256                  // pre-order, distinct
+	Sub         map[util.Uint256][]util.Uint256 // pre-order of the subtree (what a peer answers to a request of the hash)
+	Multi       int                             // hashes reachable along more than one path
+	MultiInner  int                             // ... of them branch/extension nodes
+	MultiParent int                             // inner nodes that are children of two different parents
+	Depth       map[util.Uint256]int            // distance from the root (shortest path)
 }
 
 func (t *trieT) closure(set []util.Uint256) int {
@@ -263,6 +265,27 @@ func extraTpls() []chainx.Tpl {
 			}
 			return []*transaction.Transaction{tx}, nil
 		}},
+		{Name: "ua-shared-inner", Build: func(w *chainx.World) ([]*transaction.Transaction, error) {
+			// 0x111ABC and 0x211ABC carry the same value: the extension+leaf below
+			// nibble 1 of the two (different) branches 0x11.. and 0x21.. is one node
+			tx, err := w.URun(2, w.UA, []any{
+				[]any{chainx.OpPut, []byte{0x11, 0x1A, 0xBC}, []byte("7")}, []any{chainx.OpPut, []byte{0x11, 0x20, 0x00}, []byte("8")},
+				[]any{chainx.OpPut, []byte{0x21, 0x1A, 0xBC}, []byte("7")}, []any{chainx.OpPut, []byte{0x21, 0x30, 0x00}, []byte("9")},
+			})
+			if err != nil {
+				return nil, err
+			}
+			return []*transaction.Transaction{tx}, nil
+		}},
+		{Name: "ua-unshare", Build: func(w *chainx.World) ([]*transaction.Transaction, error) {
+			tx, err := w.URun(3, w.UA, []any{
+				[]any{chainx.OpDel, []byte{0x11, 0x1A, 0xBC}}, []any{chainx.OpPut, []byte{0x21, 0x30, 0x00}, []byte("7")},
+			})
+			if err != nil {
+				return nil, err
+			}
+			return []*transaction.Transaction{tx}, nil
+		}},
 		{Name: "uc-a2", Build: func(w *chainx.World) ([]*transaction.Transaction, error) {
 			tx, err := w.URun(2, w.UC, []any{[]any{chainx.OpPut, []byte("a"), []byte("2")}})
 			if err != nil {
@@ -408,6 +431,27 @@ func buildSource(f famT, names []string, points []uint32) (*srcT, error) {
 			}
 			sort.Slice(ks, func(i, j int) bool { return t.Pre[ks[i]] < t.Pre[ks[j]] })
 			t.Kids[hh] = ks
+		}
+		// depth (breadth-first) and inner nodes with several distinct parents
+		t.Depth = map[util.Uint256]int{t.Root: 0}
+		for q := []util.Uint256{t.Root}; len(q) > 0; q = q[1:] {
+			for _, k := range t.Kids[q[0]] {
+				if _, ok := t.Depth[k]; !ok {
+					t.Depth[k] = t.Depth[q[0]] + 1
+					q = append(q, k)
+				}
+			}
+		}
+		npar := map[util.Uint256]int{}
+		for _, ks := range t.Kids {
+			for _, k := range ks {
+				npar[k]++
+			}
+		}
+		for hh, c := range npar {
+			if c > 1 && len(t.Kids[hh]) > 0 {
+				t.MultiParent++
+			}
 		}
 		for hh := range t.Nodes {
 			if len(t.Kids[hh]) == 0 {
